@@ -98,6 +98,11 @@ def run(ctx, prog):
                 ok, why = False, 'init_mms installs `%s`, which is not an element of the freshly built candidate vector' % show(r)
         if not stored:
             ok, why = False, 'init_mms installs nothing'
+        map_assigned = any(strip(n['a'], casts=True).get('k') == 'call' and strip(n['a'], casts=True).get('n') == 'operator[]' for n, r in stored)
+        erased = any(c.get('n') == 'erase' and strip(c.get('obj') or {}, casts=True).get('n') == '_master_map' for c in calls(im.body))
+        if stored and not (map_assigned or erased):
+            ok, why = False, ('the map entry of the handle is not assigned (no `_master_map[handle] = ...`, no erase before insert): '
+                              're-using a handle keeps the old instance in the registry')
         gl, ents, other = cat.entries(prog, scalar)
         if other and not all(s.get('k') == 'return' for s in other):
             ok, why = False, 'get_list_mms contains statements other than push_back(new ...)'
